@@ -1,5 +1,5 @@
 # replay of a bounded stand-in violation (C11): re-run native/c11_compilers.py
 import sys
-print("gaussian_merge n=3 gates=[('Zgate', (2,)), ('Dgate', (2,)), ('MZgate', (0, 1)), ('CKgate', (0, 1)), ('MZgate', (0, 1)), ('MZgate', (2, 0)), ('Kgate', (1,)), ('BSgate', (2, 1))]: compiled program gives different reduced states on the fock backend (max difference 0.029 at cutoff 7, 0.029 at cutoff 11)")
+print("gaussian_merge n=5 gates=[('MZgate', (1, 3)), ('Rgate', (2,)), ('Sgate', (1,)), ('Rgate', (0,)), ('CKgate', (3, 1)), ('Dgate', (0,)), ('Sgate', (1,)), ('MZgate', (1, 4)), ('BSgate', (0, 1)), ('CKgate', (0, 3)), ('Dgate', (2,)), ('Dgate', (4,)), ('Rgate', (3,)), ('Vgate', (3,)), ('Sgate', (0,)), ('BSgate', (1, 2)), ('Kgate', (3,)), ('S2gate', (4, 3)), ('S2gate', (4, 1))]: compile raised NetworkXUnfeasible: Graph contains a cycle or graph changed during iteration")
 print('REPLAY-VIOLATION')
 sys.exit(1)
